@@ -10,7 +10,7 @@ META = dict(
     functions=['atomman/core/nlist.pyx:nlist,unique_rows2', 'atomman/core/dmag.pyx:dmag2_c', 'atomman/core/NeighborList.py:NeighborList.__init__/build/__getitem__/coord/dump/load',
                'atomman/core/System.py:System.__init__', 'atomman/core/Atoms.py:Atoms.__init__'],
     bounds=dict(quick='N=2 atoms, two relative coordinates of both atoms symbolic (the third fixed), 10 table entries (orthogonal/tilted, origin, cutoff below/near/above the cell widths, pbc TTF/TFF/FFF), configuration space cut into axis-aligned sub-boxes; quick explores the face-adjacent sub-boxes within a time budget per sub-box (unexplored regions are counted and reported)',
-                thorough='all sub-boxes of every entry with a larger budget; N=3 for two entries incl. storage sizes (1,1),(2,1)'),
+                thorough='the whole cell of every entry as 16 sub-boxes (2x2 per atom) with 300 s per sub-box (unfinished work-lists are reported as remaining); N=3 for two entries incl. storage sizes (1,1),(2,1)'),
     outside=['N > 3 atoms', 'more than 40 atoms per bin (bin growth) and neighbour-row growth beyond the translator-validation replay', 'IEEE-754 rounding at bin edges (np.arange/digitize are executed on exact reals)'],
     lemmas=[], cuts=[],
     assumptions=['atoms inside the cell (relative coordinates in [0,1])', 'Cython integer types behave as Python ints within the bounds'],
@@ -140,7 +140,7 @@ def grid(nx, ny):
 def cases(tier, seed=0):
     cs = [Case('translator_validation', tv_nlist(seed), kernels=KER, concrete_only=True, budget_s=170,
                descr='pyx2py(nlist.pyx) vs extension compiled from the same source; storage sizes; bin growth')]
-    B = 110 if tier == 'quick' else 1500
+    B = 110 if tier == 'quick' else 300
     def add(ename, sub, tag, **kw):
         cs.append(Case(f'{ename}_{tag}', h_region(ename, sub, **kw), bind=BIND, kernels=KER, maxcases=32, budget_s=B, max_paths=100000,
                        timeout_ms=10000, descr=f'entry {ename} {ENTRIES[ename][0]} cutoff {ENTRIES[ename][1]} pbc {ENTRIES[ename][2]}: sub-box {sub}', expect_paths=2))
@@ -167,7 +167,7 @@ def cases(tier, seed=0):
                     's1x': (float(lo[2]), float(lo[2] + 0.25)), 's1y': (float(lo[3]), float(lo[3] + 0.25))}, f'seeded{k}')
     else:
         for e in ENTRIES:
-            xs, ys = grid(3, 3)
+            xs, ys = grid(2, 2)        # 16 sub-boxes per entry covering the whole cell (sized for ~45 min on 16 cores; unfinished work-lists are reported)
             for (a, xa), (b, ya), (c, xb), (d, yb) in itertools.product(enumerate(xs), enumerate(ys), enumerate(xs), enumerate(ys)):
                 add(e, {'s0x': xa, 's0y': ya, 's1x': xb, 's1y': yb}, f'g{a}{b}{c}{d}', check_io=(a == b == c == d == 0))
         for e in ('E2', 'E6'):
